@@ -246,10 +246,11 @@ type StressSvc struct {
 	delayNs   int64
 	pushFirst int
 	hold      chan struct{} // ChatHold handlers start reading once this is closed
+	big       []byte        // content served by Cached
 }
 
 func newStressSvc() *StressSvc {
-	return &StressSvc{execs: map[string]int{}, order: map[int][]int64{}, live: map[int]int{}, overlap: map[int]int{}}
+	return &StressSvc{execs: map[string]int{}, order: map[int][]int64{}, live: map[int]int{}, overlap: map[int]int{}, big: bigContent()}
 }
 
 func (s *StressSvc) begin(p []byte) (conn int, hasHdr bool) {
@@ -318,6 +319,27 @@ func (s *StressSvc) EchoRet(req *Blob) (*Blob, error) {
 	return &Blob{B: out}, nil
 }
 
+// Cached answers with a prefix of a slice the service owns and keeps (cached content): the library must treat it as read-only
+// and must not keep it either. The request carries the length wanted (4 bytes, little endian).
+func (s *StressSvc) Cached(req *Blob, res *Blob) error {
+	if len(req.B) < 4 {
+		return errors.New("Cached: short request")
+	}
+	n := int(binary.LittleEndian.Uint32(req.B))
+	if n > len(s.big) {
+		n = len(s.big)
+	}
+	res.B = s.big[:n]
+	return nil
+}
+
+func bigContent() []byte {
+	b := make([]byte, 300000)
+	r := rand.New(rand.NewSource(77))
+	r.Read(b)
+	return b
+}
+
 // Flip: same shape and same name length as Echo, another function (a request routed to the wrong handler shows in the reply)
 func (s *StressSvc) Flip(req *Blob, res *Blob) error {
 	out, err := s.do(req.B)
@@ -375,6 +397,7 @@ type StressCfg struct {
 	DelayUs    int     `json:"delayus"`
 	OneAtATime bool    `json:"oneatatime"`
 	CtxCases   [][]int `json:"ctxcases"` // [cap, len, 1 if the model places the reply in the caller's buffer]: run after the workload (C11/C19)
+	Cached     int     `json:"cached"`   // > 0 (aliasing codec): that many calls of a handler that answers from content it owns, among other calls
 	Retain     bool    `json:"retain"`   // user code keeps what it was handed and re-checks it after further traffic (C11)
 }
 
@@ -775,6 +798,44 @@ func runStress(c StressCfg) StressResult {
 			}
 		}
 	}
+	if c.Cached > 0 && c.Codec == "alias" {
+		want := bigContent()
+		for k := 0; k < c.Cached; k++ {
+			n := []int{70000, 131072, 200000, 66000}[k%4]
+			q := make([]byte, 4)
+			binary.LittleEndian.PutUint32(q, uint32(n))
+			args, _ := newMsg(q)
+			reply, get := newMsg(nil)
+			cn := conns[k%len(conns)]
+			if err := cn.Call("S.Cached", args, reply); err != nil {
+				fail("Cached(%d): %v", n, err)
+				break
+			}
+			if got := get(); !bytes.Equal(got, want[:n]) {
+				d := 0
+				for d < len(got) && d < n && got[d] == want[d] {
+					d++
+				}
+				fail("Cached(%d), call %d: the reply is not the content the handler serves (first difference at byte %d: %x, want %x): something wrote into memory the handler owns", n, k, d, head(got[d:]), head(want[d:n]))
+				break
+			}
+			// other traffic in between
+			w := wcall{Conn: 0, Gor: 62000, Idx: k, Size: 300 + 37*k}
+			p := w.payload(c.Seed + 5)
+			a2, _ := newMsg(p)
+			r2, g2 := newMsg(nil)
+			if err := cn.Call(method(wcall{Method: "Echo"}), a2, r2); err != nil || !bytes.Equal(g2(), transform(p)) {
+				fail("Echo between Cached calls: err %v", err)
+				break
+			}
+			sentMu.Lock()
+			sentCount[string(p)]++
+			sentMu.Unlock()
+		}
+		if !bytes.Equal(svc.big, want) {
+			fail("the content a handler owns and answers from was modified by the library")
+		}
+	}
 	if c.Retain {
 		// further traffic of the same size classes on every connection churns the pools, then everything kept is compared again
 		for ci, cn := range conns {
@@ -913,7 +974,7 @@ func init() {
 		}
 		var results []StressResult
 		for _, c := range cfgs {
-			results = append(results, runStress(c))
+			results = append(results, guarded(c.Name, 240*time.Second, func() StressResult { return runStress(c) }))
 			rj, _ := json.MarshalIndent(results, "", " ")
 			os.WriteFile(*out, rj, 0644)
 		}
@@ -1225,6 +1286,38 @@ func runStreamScenario(c StreamScenario) StressResult {
 		}
 		svc.mu.Unlock()
 	}
+	if c.BurstClose > 0 { // (before the end phase: the scenario's own streams are still open, their handlers parked in ReadMessage)
+		big := make([]byte, 8192)
+		for i := 0; i < c.BurstClose && len(res.Failures) == 0; i++ {
+			st, err := conn.NewStream("S.Chat")
+			if err != nil {
+				fail("burst-close stream %d: NewStream: %v", i, err)
+				break
+			}
+			for k := 0; k < 120; k++ {
+				big[0] = byte(k)
+				if err := st.WriteMessage(&Blob{B: big}); err != nil {
+					fail("burst-close stream %d: WriteMessage %d: %v", i, k, err)
+					break
+				}
+			}
+			cl := make(chan error, 1)
+			go func() { cl <- st.Close() }()
+			select {
+			case <-cl:
+			case <-time.After(5 * time.Second):
+				fail("burst-close stream %d: Close did not return within 5 s", i)
+			}
+			wc := wcall{Conn: 5, Gor: i, Idx: i, Size: 64}
+			p := wc.payload(c.Seed)
+			var rep Blob
+			if err := conn.Call("S.Echo", &Blob{B: p}, &rep); err != nil {
+				fail("burst-close stream %d: a call on the same connection after the close failed: %v", i, err)
+			} else if !bytes.Equal(rep.B, transform(p)) {
+				fail("burst-close stream %d: the call after the close got a foreign reply", i)
+			}
+		}
+	}
 	// ---- the end: every handler must return
 	waitStarted := time.Now().Add(2 * time.Second)
 	for atomic.LoadInt64(&chatStarted)-started0 < int64(c.Streams) && time.Now().Before(waitStarted) {
@@ -1262,7 +1355,40 @@ func runStreamScenario(c StreamScenario) StressResult {
 				fail("stream %d: WriteMessage after Close returned %v, want ErrStreamShutdown", i, err)
 			}
 			if c.End == "half" && len(streams) > 1 && streams[1] != nil {
-				// the sibling is undisturbed
+				// new requests issued after the oldest stream was closed (a call, a ping, another stream) ...
+				wc := wcall{Conn: 4, Gor: i, Idx: 1, Size: 48}
+				pp := wc.payload(c.Seed)
+				var rep Blob
+				if err, ok := within(5*time.Second, func() error { return conn.Call("S.Echo", &Blob{B: pp}, &rep) }); !ok {
+					fail("a call made after closing the oldest stream while a newer one is open did not return within 5 s")
+				} else if err != nil || !bytes.Equal(rep.B, transform(pp)) {
+					fail("call after closing the oldest stream while a newer one is open: err %v, reply %d bytes", err, len(rep.B))
+				}
+				if err, ok := within(5*time.Second, conn.Ping); !ok {
+					fail("a ping made after closing the oldest stream while a newer one is open did not return within 5 s")
+				} else if err != nil {
+					fail("ping after closing the oldest stream while a newer one is open: %v", err)
+				}
+				var st3 rpc.Stream
+				if err, ok := within(5*time.Second, func() (e error) { st3, e = conn.NewStream("S.Chat"); return }); !ok {
+					fail("NewStream after closing the oldest stream did not return within 5 s")
+				} else if err != nil {
+					fail("NewStream after closing the oldest stream: %v", err)
+				} else {
+					for k := 0; k < c.PushFirst; k++ { // the handler's first pushes
+						var m Blob
+						readWithin(st3, &m, 3*time.Second)
+					}
+					q := []byte{7, 7, 7, 7}
+					var m Blob
+					if err := st3.WriteMessage(&Blob{B: q}); err != nil {
+						fail("new stream opened after closing the oldest one: write: %v", err)
+					} else if err := readWithin(st3, &m, 3*time.Second); err != nil || !bytes.Equal(m.B, transform(q)) {
+						fail("new stream opened after closing the oldest one: echo %v %x (cross-wired with a sibling?)", err, head(m.B))
+					}
+					streams = append(streams, st3)
+				}
+				// ... and the sibling is undisturbed
 				p := []byte{9, 9, 9}
 				if err := streams[1].WriteMessage(&Blob{B: p}); err != nil {
 					fail("sibling stream disturbed by closing stream 0: %v", err)
@@ -1305,38 +1431,6 @@ func runStreamScenario(c StreamScenario) StressResult {
 	}
 	if got := atomic.LoadInt64(&chatReturned) - returned0; got < nstarted {
 		fail("%d of %d stream handlers still blocked 3 s after their streams were closed / the connection was dropped (server mode poll=%v)", nstarted-got, nstarted, c.Poll)
-	}
-	if c.End == "close" && c.BurstClose > 0 {
-		big := make([]byte, 8192)
-		for i := 0; i < c.BurstClose && len(res.Failures) == 0; i++ {
-			st, err := conn.NewStream("S.Chat")
-			if err != nil {
-				fail("burst-close stream %d: NewStream: %v", i, err)
-				break
-			}
-			for k := 0; k < 120; k++ {
-				big[0] = byte(k)
-				if err := st.WriteMessage(&Blob{B: big}); err != nil {
-					fail("burst-close stream %d: WriteMessage %d: %v", i, k, err)
-					break
-				}
-			}
-			cl := make(chan error, 1)
-			go func() { cl <- st.Close() }()
-			select {
-			case <-cl:
-			case <-time.After(5 * time.Second):
-				fail("burst-close stream %d: Close did not return within 5 s", i)
-			}
-			wc := wcall{Conn: 5, Gor: i, Idx: i, Size: 64}
-			p := wc.payload(c.Seed)
-			var rep Blob
-			if err := conn.Call("S.Echo", &Blob{B: p}, &rep); err != nil {
-				fail("burst-close stream %d: a call on the same connection after the close failed: %v", i, err)
-			} else if !bytes.Equal(rep.B, transform(p)) {
-				fail("burst-close stream %d: the call after the close got a foreign reply", i)
-			}
-		}
 	}
 	if c.End == "close" && c.RaceClose > 0 {
 		for i := 0; i < c.RaceClose; i++ {
@@ -1392,6 +1486,30 @@ func runStreamScenario(c StreamScenario) StressResult {
 				}
 			}()
 		}
+		// refused stream opens (unknown method) run alongside: what they recycle must not reach the ordinary calls
+		awg.Add(1)
+		go func() {
+			defer awg.Done()
+			for {
+				select {
+				case <-stopPing:
+					return
+				default:
+				}
+				ch := make(chan error, 1)
+				go func() { _, err := conn.NewStream("S.Nope"); ch <- err }()
+				select {
+				case err := <-ch:
+					if err == nil {
+						fail("NewStream of a method the server does not have succeeded")
+						return
+					}
+				case <-time.After(5 * time.Second):
+					fail("NewStream of a method the server does not have did not return within 5 s")
+					return
+				}
+			}
+		}()
 		var cwg sync.WaitGroup
 		for g := 0; g < c.After; g++ {
 			cwg.Add(1)
@@ -1401,7 +1519,16 @@ func runStreamScenario(c StreamScenario) StressResult {
 					wc := wcall{Conn: 6, Gor: g, Idx: k, Size: 24 + g + k}
 					p := wc.payload(c.Seed)
 					var rep Blob
-					if err := conn.Call("S.Echo", &Blob{B: p}, &rep); err != nil {
+					cerr := make(chan error, 1)
+					go func() { cerr <- conn.Call("S.Echo", &Blob{B: p}, &rep) }()
+					var err error
+					select {
+					case err = <-cerr:
+					case <-time.After(10 * time.Second):
+						fail("call after the streams were closed did not return within 10 s")
+						return
+					}
+					if err != nil {
 						fail("call after the streams were closed: %v", err)
 						return
 					} else if !bytes.Equal(rep.B, transform(p)) {
@@ -1424,6 +1551,48 @@ func runStreamScenario(c StreamScenario) StressResult {
 	}
 	res.WallMs = time.Since(t0).Milliseconds()
 	return res
+}
+
+// guarded runs one scenario under a watchdog: a scenario that does not finish is reported as a failure of that scenario, with
+// the library frames of the goroutines that are stuck (the worker then goes on with the next scenario).
+func guarded(name string, d time.Duration, f func() StressResult) StressResult {
+	ch := make(chan StressResult, 1)
+	go func() { ch <- f() }()
+	select {
+	case r := <-ch:
+		return r
+	case <-time.After(d):
+		buf := make([]byte, 1<<20)
+		buf = buf[:runtime.Stack(buf, true)]
+		var stuck []string
+		for _, g := range strings.Split(string(buf), "\n\n") {
+			if strings.Contains(g, "hslam/rpc.") {
+				lines := strings.Split(g, "\n")
+				for _, ln := range lines {
+					if strings.Contains(ln, "hslam/rpc.") {
+						stuck = append(stuck, strings.TrimSpace(ln))
+						break
+					}
+				}
+			}
+			if len(stuck) >= 6 {
+				break
+			}
+		}
+		return StressResult{Name: name, Failures: []string{fmt.Sprintf("the scenario did not finish within %v: calls into the library never returned (%s)", d, strings.Join(stuck, "; "))}}
+	}
+}
+
+// within runs f and reports whether it returned within d (a call that hangs is a finding, not a reason to hang the driver)
+func within(d time.Duration, f func() error) (error, bool) {
+	ch := make(chan error, 1)
+	go func() { ch <- f() }()
+	select {
+	case err := <-ch:
+		return err, true
+	case <-time.After(d):
+		return nil, false
+	}
 }
 
 func readWithin(st rpc.Stream, m *Blob, d time.Duration) error {
@@ -1455,7 +1624,7 @@ func init() {
 		}
 		var results []StressResult
 		for _, c := range cfgs {
-			results = append(results, runStreamScenario(c))
+			results = append(results, guarded(c.Name, 90*time.Second, func() StressResult { return runStreamScenario(c) }))
 			rj, _ := json.MarshalIndent(results, "", " ")
 			os.WriteFile(*out, rj, 0644)
 		}
